@@ -10,7 +10,6 @@ A configuration line *is* the failing input; shrinking reduces archetypes, popul
 import itertools
 import os
 import re
-import shutil
 import time
 from concurrent.futures import ThreadPoolExecutor
 
@@ -762,21 +761,7 @@ def run(ctx):
     t0 = time.time()
     exe, internals = build(ctx)
     INTERNALS = internals
-    # private copy of the model driver: a concurrent `lake build` re-links the shared binary
-    drv = os.path.join(vlib.CACHE, "driver-c04-%d" % os.getpid())
-    for attempt in range(20):
-        try:
-            shutil.copy2(ctx.driver(), drv)
-            break
-        except (FileNotFoundError, OSError):
-            time.sleep(1.0)
-    try:
-        _run(ctx, exe, drv, internals, t0)
-    finally:
-        try:
-            os.unlink(drv)
-        except OSError:
-            pass
+    _run(ctx, exe, ctx.driver(), internals, t0)     # vlib hands out a private copy of the driver binary
 
 
 def _run(ctx, exe, drv, internals, t0):
